@@ -1,6 +1,6 @@
 """The checks, one function per property family.  Everything a check needs is rebuilt from
 /repo's current working tree (mount + incremental cargo build) before the engines run."""
-import json, os, subprocess, sys, time
+import re, json, os, subprocess, sys, time
 from vlib import *  # noqa: F401,F403
 
 COMMON_ASSUMPTIONS = [
@@ -515,8 +515,15 @@ def llvm_crosscheck(words):
         lines = [l.strip() for l in r.stdout.splitlines() if l.strip() and not l.strip().startswith(".text")]
         if len(lines) != len(items):
             raise MachineryError(f"llvm-mc-14 decoded {len(lines)} of {len(items)} {arch} words ({r.stderr[-300:]})")
+        def norm(t):
+            # spellings of the same operand that differ between the two printers
+            t = " ".join(t.split())
+            t = t.replace("[pc, #-0]", "[pc]").replace("[pc, #0]", "[pc]")
+            t = re.sub(r"\bx31\b", "xzr", t)
+            t = re.sub(r"\bw31\b", "wzr", t)
+            return t
         for (hx, txt), line in zip(items, lines):
-            if " ".join(line.split()) != " ".join(txt.split()):
+            if norm(line) != norm(txt):
                 raise MachineryError(f"decoder cross-check: {arch} bytes {hx}: harness decoder says {txt!r}, llvm-mc-14 says {line!r}")
             n += 1
     return n
